@@ -292,3 +292,15 @@ pub fn catch<T, F: FnOnce() -> T + std::panic::UnwindSafe>(f: F) -> Result<T, St
 pub mod gen;
 pub mod net;
 pub mod res;
+
+/// The value of option `names[..]` of a network rule line AS WRITTEN: the text between the first
+/// `=` of the option and the next comma, blanks included (the option parser trims nothing).  Oracles use this instead of the parsed rule's
+/// `modifier_option`, so that a parser that stores something else than what the line says is seen.
+/// None: the option is absent or has no value.
+pub fn option_value(line: &str, names: &[&str]) -> Option<String> {
+    let i = line.rfind('$')?;
+    line[i + 1..].split(',').find_map(|o| {
+        let (k, v) = match o.split_once('=') { Some((k, v)) => (k, v), None => (o, "") };
+        if names.contains(&k) { Some(if v.is_empty() { None } else { Some(v.to_string()) }) } else { None }
+    })?
+}
